@@ -69,6 +69,34 @@ def make_case(rng, li, lib):
             if k not in sealed:
                 nd["pre"] = nd["pre"] + [ops[-1]["p"]]
         expect.append(set(sealed))
+    # final phase (about a third of the cases): a seal of some node FAILS half-way (its context cannot generate paths);
+    # whatever was sealed before must stay frozen.  Which further nodes the failing seal leaves sealed is not
+    # modelled, so afterwards only nodes sealed before are exercised (the model says "rejected" for those).
+    tail = []
+    if sealed and rng.random() < 0.5:
+        unsealed = [i for i in range(n) if i not in sealed]
+        tail.append({"op": "failseal", "n": rng.choice(unsealed) if unsealed and rng.random() < 0.8 else rng.randrange(n)})
+        frozen = sorted(sealed)
+        for _ in range(rng.choice([2, 4, 6])):
+            k = rng.choice(frozen)
+            nd = g["nodes"][k]
+            r = rng.random()
+            if r < 0.4:
+                args = [a for a in cfggen.all_args(lib, nd["cls"]) if a["decl"] in ("param", "meta", "option") and not cfggen.has_cfg(a["ty"])]
+                if args:
+                    a = rng.choice(args)
+                    tail.append({"op": "set", "n": k, "pyname": a["name"], "spec": cfggen.GraphGen(rng, lib, 0, False).gen_val(a["ty"], 3, k)})
+            elif r < 0.55:
+                tail.append({"op": "setmeta", "n": k, "b": rng.choice([True, False])})
+            elif r < 0.7:
+                lws = [i for i, x in enumerate(g["nodes"]) if x["cls"] == "LW" and i != k]
+                if lws:
+                    tail.append({"op": "addpre", "n": k, "p": rng.choice(lws)})
+            else:
+                tail.append({"op": rng.choice(["full", "raw"]), "n": k})
+    for o in tail:
+        ops.append(o)
+        expect.append(set(sealed))
     steps = [{"do": "build", "graph": g0, "as": "A"}, {"do": "graph", "of": "A"}]
     steps += [{"do": "op", "on": "A", "op": o} for o in ops]
     return {"lib": li, "steps": steps, "graph": g0, "ops": ops, "sealed_before": expect}
@@ -76,7 +104,8 @@ def make_case(rng, li, lib):
 
 def monitor(ctx, case, rec):
     """implementation only"""
-    outs = rec["impl"][1:]
+    it = iter(rec["impl"][1:])
+    outs = [({"ok": True} if op["op"] == "failseal" else next(it)) for op in case["ops"]]
     ids = {}  # (kind, node) -> identifier recorded while the node was sealed
     for op, out, sealed in zip(case["ops"], outs, case["sealed_before"]):
         k = op["n"]
@@ -123,6 +152,8 @@ def correspond(ctx):
         ctx.case({"graph": case["graph"], "ops": case["ops"]}, nt)
         for o, s in zip(case["ops"], case["sealed_before"]):
             ctx.count("op", o["op"] + ("@sealed" if o["n"] in s else ""))
+        for x in rec.get("extra", []):
+            ctx.count("failing_seal", "raised" if x["out"].get("raised") else "completed")
         monitor(ctx, case, rec)
         good.append((case, rec))
     if len(good) < len(cases) * 0.9:
